@@ -19,7 +19,15 @@ def starRests (k : List Char → List (List Char)) : List Char → List (List Ch
   | [] => k []
   | c :: t => k (c :: t) ++ starRests k t
 
-/-- all rests a plain regex can leave when matched at the head of `s` -/
+/-- `(?:b1|b2|…)`: the rests of the continuation after every branch that matches at the head -/
+def altRests (k : List Char → List (List Char)) (s : List Char) : List (List Simple) → List (List Char)
+  | [] => []
+  | b :: bs =>
+    (match matchSimples b s with
+     | some s' => k s'
+     | none => []) ++ altRests k s bs
+
+/-- all rests a regex without anchors can leave when matched at the head of `s` -/
 def rests : List ReAtom → List Char → List (List Char)
   | [], s => [s]
   | .any :: r, s => match s with
@@ -31,7 +39,7 @@ def rests : List ReAtom → List Char → List (List Char)
   | .star :: r, s => starRests (rests r) s
   | .bos :: _, _ => []
   | .eos :: _, _ => []
-  | .alt _ :: _, _ => []
+  | .alt bs :: r, s => altRests (rests r) s bs
 
 theorem mem_starRests (k : List Char → List (List Char)) (s x : List Char) :
     x ∈ starRests k s ↔ ∃ u, u <:+ s ∧ x ∈ k u := by
